@@ -59,11 +59,9 @@ class TriggerManager(AoE2Object):
         self.trigger_display_order = list(range(len(triggers)))
 
     def _update_triggers_uuid(self, trigger):
-        """Function to update inner UUIDs """
-        for effect in trigger.effects:
-            effect._uuid = self._uuid
-        for condition in trigger.conditions:
-            condition._uuid = self._uuid
+        """Function to update inner UUIDs (of the nested lists too, they stamp whatever is added to them later)"""
+        trigger.effects.uuid = self._uuid
+        trigger.conditions.uuid = self._uuid
 
     @property
     def trigger_display_order(self) -> List[int]:
